@@ -25,6 +25,7 @@ CONSTANTS TreeSet,        \* the source trees the environment may switch between
           \* protocol choices, set to what /repo does
           CombinerClearsQueueOnFailedFlush,
           GcStopsOnUnreadableHunk,
+          GcBandsBeforeBlocks, \* delete removes the versions' directories first, unreferenced blocks afterwards (TRUE in /repo)
           BkRechecksLock,   \* backup looks at the gc lock again after creating its band (TRUE since c3178ec)
           AllowConcurrent,  \* a backup and a delete/gc may run at the same time
           Hash(_)         \* the name of a block with this content (injective)
@@ -305,11 +306,20 @@ BkNext == \/ BkCheckLock \/ BkListBands \/ BkMkBand \/ BkWriteHead \/ BkRecheck 
 StartDelete ==
     /\ IF AllowConcurrent THEN gc.pc = "Idle" ELSE Quiet
     /\ cnt.deletes < MaxDeletes
-    /\ \E D \in SUBSET Bands(fs) : \E dry \in BOOLEAN :
-         gc' = [pc |-> "ListBands", del |-> D, dry |-> dry, last |-> -1, keep |-> {}, toread |-> {},
+    \* (--break-lock is for the stale lock of a killed delete: only offered when there is one)
+    /\ \E D \in SUBSET Bands(fs) : \E dry \in BOOLEAN : \E brk \in (IF fs.lock /\ gc.pc = "Idle" /\ ~AllowConcurrent THEN BOOLEAN ELSE {FALSE}) :
+         gc' = [pc |-> IF brk THEN "BreakLock" ELSE "ListBands", del |-> D, dry |-> dry, last |-> -1, keep |-> {}, toread |-> {},
                 referenced |-> {}, unref |-> {}, todel |-> {}, res |-> "", fs0 |-> fs, faulty |-> FALSE]
     /\ cnt' = [cnt EXCEPT !.deletes = @ + 1]
     /\ UNCHANGED <<fs, src, bk, snap, partial>>
+
+\* delete --break-lock: an existing lock is removed first (src/gc_lock.rs break_lock), then the
+\* lock is taken in the ordinary way
+GcBreakLock ==
+    /\ gc.pc = "BreakLock"
+    /\ fs' = [fs EXCEPT !.lock = FALSE]
+    /\ gc' = [gc EXCEPT !.pc = "ListBands"]
+    /\ UNCHANGED <<src, bk, snap, partial, cnt>>
 
 GcListBands ==
     /\ gc.pc = "ListBands"
@@ -369,13 +379,14 @@ GcRecheck ==
     /\ gc.pc = "Recheck"
     /\ gc' = IF gc.dry THEN [gc EXCEPT !.pc = "Release", !.res = "ok"]
              ELSE IF LastBand(fs) # gc.last THEN [gc EXCEPT !.pc = "Release", !.res = "aborted"]
-             ELSE [gc EXCEPT !.pc = "DeleteBands", !.todel = gc.del]
+             ELSE [gc EXCEPT !.pc = IF GcBandsBeforeBlocks THEN "DeleteBands" ELSE "DeleteBlocks", !.todel = gc.del]
     /\ UNCHANGED <<fs, src, bk, snap, partial, cnt>>
 
 GcDeleteBand ==
     /\ gc.pc = "DeleteBands"
     /\ IF gc.todel = {}
-       THEN /\ gc' = [gc EXCEPT !.pc = "DeleteBlocks"] /\ UNCHANGED <<fs, snap, partial>>
+       THEN /\ gc' = IF GcBandsBeforeBlocks THEN [gc EXCEPT !.pc = "DeleteBlocks"] ELSE [gc EXCEPT !.pc = "Release", !.res = "ok"]
+            /\ UNCHANGED <<fs, snap, partial>>
        ELSE LET b == SetMin(gc.todel) IN       \* in the order given (one remove_dir_all each)
             /\ fs' = RemoveDirAllAt(fs, Key("BandDir", b, -1, ""))
             /\ gc' = [gc EXCEPT !.todel = @ \ {b}]
@@ -387,7 +398,8 @@ GcDeleteBand ==
 GcDeleteBlock ==
     /\ gc.pc = "DeleteBlocks"
     /\ IF gc.unref = {}
-       THEN /\ gc' = [gc EXCEPT !.pc = "Release", !.res = "ok"] /\ UNCHANGED fs
+       THEN /\ gc' = IF GcBandsBeforeBlocks THEN [gc EXCEPT !.pc = "Release", !.res = "ok"] ELSE [gc EXCEPT !.pc = "DeleteBands"]
+            /\ UNCHANGED fs
        ELSE \E h \in gc.unref :
               /\ fs' = RemoveFileAt(fs, Key("Block", -1, -1, h))
               /\ gc' = [gc EXCEPT !.unref = @ \ {h}]
@@ -438,7 +450,7 @@ BreakLock ==
     /\ fs' = [fs EXCEPT !.lock = FALSE]
     /\ UNCHANGED <<src, bk, gc, snap, partial, cnt>>
 
-GcNext == \/ GcListBands \/ GcCheckTail \/ GcCheckLock \/ GcWriteLock \/ GcListKeep \/ GcReadRefs
+GcNext == \/ GcBreakLock \/ GcListBands \/ GcCheckTail \/ GcCheckLock \/ GcWriteLock \/ GcListKeep \/ GcReadRefs
           \/ GcListBlocks \/ GcRecheck \/ GcDeleteBand \/ GcDeleteBlock \/ GcRelease \/ GcReturn \/ GcCrash
           \/ GcCrashTorn
 
@@ -484,7 +496,7 @@ Inv_UnchangedStoresNothing ==
 \* block and left no unreferenced one; a dry run changed nothing
 Inv_GcExact ==
     (gc.pc = "Done" /\ gc.res = "ok") =>
-        IF gc.dry THEN fs = gc.fs0
+        IF gc.dry THEN fs = [gc.fs0 EXCEPT !.lock = FALSE]     \* (a broken stale lock aside)
         ELSE /\ Bands(fs) = Bands(gc.fs0) \ gc.del
              /\ PresentBlocks(fs) = Referenced(fs, Bands(fs)) \cap PresentBlocks(gc.fs0)
              /\ ~fs.lock
